@@ -26,7 +26,9 @@ CLAIM = {
             "KVVPersister build the storage key from the same prefix constant, the node id and - for channels - the "
             "channel's initial id (id0 of the stub / of the channel, the id the restore path looks up and parses back), and "
             "the prefixes of different classes differ; (R11.6) every write transaction of the on-disk store is committed with redb's "
-            "default (immediate) durability: no set_durability call lowers it, so a write that was acknowledged has been synced. Does not decide value equality after a JSON round trip nor the cloud prepare/commit window (C16).",
+            "default (immediate) durability: no set_durability call lowers it, so a write that was acknowledged has been synced; (R11.7) transactional (cloud-staged) store: what a request's "
+            "transaction reported in prepare is exactly what commit applies to the local store - the whole commit log, deletes "
+            "(tombstones) included - and nothing else writes the local store (same obligations as C16 R16.3). Does not decide value equality after a JSON round trip nor the cloud prepare/commit window (C16).",
     "note": "storage layer below Persist trusted; serde derive honours attributes; CHA for dyn Persist",
     "technique": "static analysis: persist-before-acknowledge dataflow (mutation summaries + must-pass persister completion) "
                  "+ persist/restore sibling agreement",
@@ -72,6 +74,7 @@ def run(ctx):
     r114(ctx)
     r115(ctx)
     r116(ctx)
+    r117(ctx)
 
 
 def r111(ctx, classes=None):
@@ -496,3 +499,11 @@ def r116(ctx, rid="R11.6"):
     ctx.floor(rid, "redb write transactions in vls-persist", n_tx, 3)
     ctx.ob(rid, True, "vls_persist/write-transactions-durable", "", where="vls-persist/src/kvv/redb.rs",
            sample=f"{n_tx} write transactions, none with lowered durability")
+
+
+def r117(ctx):
+    """`and, for the transactional store, between prepare and commit`: the local store a restart reads holds exactly the
+    mutations the request reported.  Same obligations as C16 R16.3."""
+    from rules import C16 as _c16
+    from engine import report as _report
+    _c16.r163(_report.renamed(ctx, {"R16.3": "R11.7"}))
